@@ -23,6 +23,26 @@ RUST_RESERVED = {'Self', 'Option', 'Some', 'None', 'Ok', 'Err', 'Result', 'Box',
                  'DoubleEndedIterator', 'ExactSizeIterator', 'TryInto', 'FromIterator'}
 PAYLOAD_TYPES = ['()', 'u32', 'crate::pay::P', 'crate::pay::Q<crate::pay::P, ()>', 'crate::pay::Q<u32, crate::pay::Q<(), crate::pay::P>>',
                  'pay::P', 'super::pay::P']
+# code points picked by their LOW BYTE and by UTF-8 length boundaries: a `char as u8`, a byte-wise
+# comparison or a byte/char length mix-up shows only on these (each special ASCII byte b gives
+# U+01bb, U+4Ebb and U+1F3bb); plus the first/last code point of every UTF-8 length
+_SPECIAL_BYTES = [0x0A, 0x0D, 0x20, 0x09, 0x22, 0x23, 0x24, 0x28, 0x29, 0x2C, 0x2F, 0x3A, 0x3C, 0x3E, 0x5B, 0x5D, 0x5F, 0x7B, 0x7D,
+                  0x41, 0x5A, 0x61, 0x7A, 0x30, 0x39, 0x00, 0x7F, 0x80, 0xFF]
+TRICKY_CHARS = sorted(set(
+    [chr(base + b) for b in _SPECIAL_BYTES for base in (0x100, 0x4E00, 0x1F300)]
+    + [chr(c) for c in (0x80, 0xFF, 0x100, 0x7FF, 0x800, 0xFFFD, 0x10000, 0x10FFFF, 0xD7FF, 0xE000, 0x2028, 0x2029, 0xFEFF)]))
+# ... but not the ones that are Unicode whitespace (they would change the token sequence inside names/comments deliberately elsewhere)
+TRICKY_CHARS = [c for c in TRICKY_CHARS if not c.isspace() and c not in '\x85\u2028\u2029']
+RESERVED_CASE_NAMES = ['Start', 'Struct', 'Enum', 'Terminal', 'STRUCT', 'ENUM', 'Enums', 'StartKw', 'TERMINAL', 'START']
+UNDERSCORE_NAMES = ['Type_', 'A_', 'B__', '_Z9', 'X_1_', 'Mod_']
+
+
+def tricky_text(rng, lo=1, hi=12, ascii_pool='abc xyz=,.;!?-+*'):
+    """Text without ASCII brackets, quotes, backslashes or line breaks, rich in tricky code points."""
+    n = rng.randint(lo, hi)
+    return ''.join(rng.choice(TRICKY_CHARS) if rng.random() < 0.5 else rng.choice(ascii_pool) for _ in range(n))
+
+
 UNI_SPACES = [' ', ' ', '\t', '\n', '\r\n', ' ', ' ', '　', '\u000b', '\u000c', '\u0085', ' ', ' ']
 
 
@@ -68,7 +88,8 @@ def pick_names(rng, pool, n, avoid=()):
 
 
 def gen_grammar(rng, adversarial=0.3, max_nts=6, max_terms=5, allow_empty_terminals=True,
-                behaviour=False, bias_lalr=0.6, motifs=0.45, wide=0.05, payload_like_nt=0.0, empty_helper_enum=0.0):
+                behaviour=False, bias_lalr=0.6, motifs=0.45, wide=0.05, payload_like_nt=0.0, empty_helper_enum=0.0,
+                name_relations=0.15):
     """Random grammar.  behaviour=True: payload types come from the fixed menu the
     compiled-parser harness knows how to build, and every type derives Debug."""
     g = Grammar()
@@ -76,11 +97,11 @@ def gen_grammar(rng, adversarial=0.3, max_nts=6, max_terms=5, allow_empty_termin
     nt_lo = 0 if allow_empty_terminals and rng.random() < 0.05 else 1
     nterm = rng.randint(nt_lo, max_terms)
     use_adv = rng.random() < adversarial
-    nt_pool = (HELPER_NAMES + PLAIN_NAMES) if use_adv else PLAIN_NAMES
+    nt_pool = (HELPER_NAMES + RESERVED_CASE_NAMES + UNDERSCORE_NAMES + PLAIN_NAMES) if use_adv else PLAIN_NAMES
     if rng.random() < 0.1:
         nt_pool = nt_pool + LETTERLESS
     names = pick_names(rng, list(nt_pool), nn, avoid=RUST_RESERVED)
-    t_pool = (HELPER_NAMES + TERMINAL_NAMES) if use_adv else TERMINAL_NAMES
+    t_pool = (HELPER_NAMES + RESERVED_CASE_NAMES + UNDERSCORE_NAMES + TERMINAL_NAMES) if use_adv else TERMINAL_NAMES
     tnames = pick_names(rng, list(t_pool), nterm, avoid=set(names) | RUST_RESERVED)
     tenum_pool = [x for x in (['Tok', 'Token', 'Terminal', 'Node', 'State', 'Kind'] if use_adv else ['Tok', 'Token', 'Lex'])
                   if x not in names and x not in tnames]
@@ -116,7 +137,9 @@ def gen_grammar(rng, adversarial=0.3, max_nts=6, max_terms=5, allow_empty_termin
             attrs.append('#[derive(Debug)]')
         if rng.random() < 0.2:
             attrs.append(rng.choice(['#[allow(unused)]', '#[doc = "x [y] {z} (w)"]', '#[cfg_attr(any(), derive(Clone))]',
-                                     '#[doc = "héllo € \U0001F600"]', '#[allow(dead_code, unused_variables)]']))
+                                     '#[doc = "héllo € \U0001F600"]', '#[allow(dead_code, unused_variables)]',
+                                     '#[doc = "%s"]' % tricky_text(rng), '#[doc = "x%sy"]' % tricky_text(rng, 1, 5),
+                                     '#[doc = "%s"]' % ''.join(rng.choice(TRICKY_CHARS) for _ in range(rng.randint(100, 400)))]))
         if rng.random() < 0.5:
             g.nts.append(dict(name=name, kind='struct', attrs=attrs, variants=[(None, fieldset())]))
         else:
@@ -143,6 +166,8 @@ def gen_grammar(rng, adversarial=0.3, max_nts=6, max_terms=5, allow_empty_termin
         g.tenum_attrs.append('#[derive(Clone, Debug)]')
     if rng.random() < motifs:
         add_motifs(rng, g, behaviour)
+    if rng.random() < name_relations:
+        add_name_relations(rng, g, behaviour)
     if g.terminals and rng.random() < payload_like_nt:
         # a payload type that is spelled like one of the declared nonterminals
         retype_like_nonterminal(rng, g)
@@ -154,6 +179,58 @@ def gen_grammar(rng, adversarial=0.3, max_nts=6, max_terms=5, allow_empty_termin
         if cands:
             g.nts.insert(rng.randint(0, len(g.nts)), dict(name=rng.choice(cands), kind='enum', attrs=(['#[derive(Debug)]'] if behaviour else []), variants=[]))
     return g
+
+
+def add_name_relations(rng, g, behaviour=False):
+    """Names that are related to each other: two terminals that differ only in letter case (with different
+    payload types, both in used fields), and a symbol whose name is the concatenation of two others, used
+    in sibling variants with identical surroundings (`.. X N ..` next to `.. XN ..`)."""
+    used = {n['name'] for n in g.nts} | {t for t, _ in g.terminals} | {g.tenum}
+    types = PAYLOAD_TYPES[:5] if behaviour else PAYLOAD_TYPES
+    r = rng.random()
+    if r < 0.5 and g.terminals:
+        # case variant of an existing terminal
+        cands = [(t, ty) for t, ty in g.terminals if any(c.isalpha() for c in t[1:])]
+        if cands:
+            t, ty = rng.choice(cands)
+            var = t[0] + ''.join(c.upper() if c.islower() else c.lower() for c in t[1:])
+            if rng.random() < 0.5:
+                var = t.upper()
+            if var != t and var not in used and var not in RUST_RESERVED:
+                other = [x for x in types if x != ty]
+                g.terminals.append((var, rng.choice(other) if other else ty))
+                nm = _fresh_nt(g, 'Case')
+                fs = ('named', [('a', ('T', t)), ('b', ('T', var))]) if rng.random() < 0.5 else ('tuple', [(True, ('T', var)), (True, ('T', t))])
+                g.nts.append(_mk('struct', nm, [(None, fs)], behaviour))
+                _hook(rng, g, ('N', nm), behaviour)
+    elif g.terminals and g.nts:
+        # XN next to X N
+        x_is_t = rng.random() < 0.6
+        x = rng.choice([t for t, _ in g.terminals]) if x_is_t else rng.choice([n['name'] for n in g.nts])
+        n = rng.choice([m['name'] for m in g.nts])
+        cat = x + n
+        if cat not in used and cat not in RUST_RESERVED:
+            if x_is_t:
+                g.terminals.append((cat, rng.choice(types)))
+                catsym = ('T', cat)
+            else:
+                g.nts.append(_mk('struct', cat, [(None, _wrap(rng, [('T', rng.choice([t for t, _ in g.terminals]))]))], behaviour))
+                catsym = ('N', cat)
+            lead = ('T', rng.choice([t for t, _ in g.terminals]))
+            nm = _fresh_nt(g, 'Cat')
+            v1 = ('tuple', [(False, lead), (True, ('T', x) if x_is_t else ('N', x)), (True, ('N', n))])
+            v2 = ('tuple', [(False, lead), (True, catsym)])
+            g.nts.append(_mk('enum', nm, [('Two', v1), ('One', v2)], behaviour))
+            _hook(rng, g, ('N', nm), behaviour)
+
+
+def _hook(rng, g, head, behaviour):
+    """Make `head` reachable: a new start production next to the old start symbol."""
+    tn = [t for t, _ in g.terminals]
+    s0 = _fresh_nt(g, 'Top')
+    before = [rng.choice([('T', rng.choice(tn)), ('N', g.start)])] if tn and rng.random() < 0.7 else []
+    g.nts.insert(rng.randint(0, len(g.nts)), _mk('struct', s0, [(None, _wrap(rng, before + [head]))], behaviour))
+    g.start = s0
 
 
 def retype_like_nonterminal(rng, g):
@@ -201,7 +278,8 @@ def add_motifs(rng, g, behaviour=False):
         g.terminals.append(('Tm', 'u32'))
     tn = [t for t, _ in g.terminals]
     for _ in range(rng.choice([1, 1, 2, 3])):
-        m = rng.choice(['nullable_chain', 'nullable_chain', 'nullable_chain', 'unit_chain', 'opt_list', 'shared_prefix', 'shared_prefix', 'eps_alts'])
+        m = rng.choice(['nullable_chain', 'nullable_chain', 'nullable_chain', 'unit_chain', 'opt_list', 'shared_prefix', 'shared_prefix', 'eps_alts',
+                        'prefix_loop', 'prefix_loop'])
         new = []
         if m == 'nullable_chain':
             k = rng.randint(2, 5)
@@ -254,6 +332,26 @@ def add_motifs(rng, g, behaviour=False):
             wrapn = _fresh_nt(g, 'Both')
             new.append(_mk('struct', wrapn, [(None, _wrap(rng, [('N', a), ('N', b)]))], behaviour))
             head = ('N', wrapn)
+        elif m == 'prefix_loop':
+            # X -> p Y, Y -> X q | v...: the state after `p` has a transition on `p` to ITSELF that brings a new lookahead (q),
+            # which must then travel through the closure into the transitions that leave the state (on v)
+            while len(tn) < 3:
+                t = 'Tk%d' % len(tn)
+                g.terminals.append((t, 'u32'))
+                tn.append(t)
+            pp, q, v = rng.sample(tn, 3)
+            x = _fresh_nt(g, 'Pfx')
+            g.nts.append(_mk('struct', x, [], behaviour))
+            y = _fresh_nt(g, 'Opnd')
+            del g.nts[-1]
+            leaf = [('T', v)] + ([('T', rng.choice(tn))] if rng.random() < 0.3 else [])
+            alts = [('Post', _wrap(rng, [('N', x), ('T', q)])), ('Leaf', _wrap(rng, leaf))]
+            if rng.random() < 0.3:
+                alts.append(('Post2', _wrap(rng, [('N', x), ('T', q), ('T', q)])))
+            rng.shuffle(alts)
+            new.append(_mk('struct', x, [(None, _wrap(rng, [('T', pp), ('N', y)]))], behaviour))
+            new.append(_mk('enum', y, alts, behaviour))
+            head = ('N', x)
         else:   # shared_prefix: A -> x y, B -> x z, C -> A | B, contexts p A and q C
             while len(tn) < 3:
                 t = 'Tk%d' % len(tn)
@@ -411,7 +509,7 @@ def layout(rng, items, style='random', shuffle_items=False):
             return ' ' if must else ''
         s = ''
         if r < 0.15:
-            s = '// ' + rng.choice(['c', 'x y z', 'é€\U0001F600', 'start struct $', '#[', '']) + '\n'
+            s = '// ' + rng.choice(['c', 'x y z', 'é€\U0001F600', 'start struct $', '#[', '', tricky_text(rng), tricky_text(rng, 1, 3) + ' Leaf(_: $Dot)']) + '\n'
         elif r < 0.5 or must:
             s = ''.join(rng.choice(UNI_SPACES) for _ in range(rng.randint(1, 3)))
         return s
